@@ -149,6 +149,13 @@ class SE:
     def write(self, path, val, st):
         if isinstance(val, tuple) and val[0] == 'struct':
             src = val[1]
+            if src == path:
+                return
+            # whole-struct assignment: every leaf of the destination is overwritten (a leaf the source never had stays unknown)
+            for p in [p for p in list(st.keys()) if p.startswith(path + '.') or p.startswith(path + '[')]:
+                del st[p]
+            for p in [p for p in list(self.initial.keys()) if p.startswith(path + '.') or p.startswith(path + '[')]:
+                del self.initial[p]
             for p in [p for p in list(st.keys()) if p.startswith(src + '.') or p.startswith(src + '[')]:
                 st[path + p[len(src):]] = st[p]
                 if p in self.kinds:
@@ -393,8 +400,12 @@ class SE:
             elif op == 'SET_RETURN_VALUE':
                 val = self.ev(x['code']['sub'][0], st)
                 key = fname + '#return_value'
-                # several returns: merge under the path condition
-                st[key] = val
+                # several returns merge under the path condition: a struct value is copied leaf by leaf into <fn>#return_value.*
+                if isinstance(val, tuple) and val[0] == 'struct':
+                    self.write(key, val, st)
+                    st[key] = ('struct', key)
+                else:
+                    st[key] = val
             else:
                 raise Unsupported('instruction ' + op)
             n += 1
